@@ -93,6 +93,22 @@ pub fn simplify_env(c: &EnvCase) -> Vec<EnvCase> {
     v
 }
 
+/// Large volumes (up to 2^31 per order) with exact accounting: at most one volume-adding instruction per
+/// step, so a side can be nearly full while a crossing order arrives, and several steps trade ~2^31 each.
+fn big_vol_cfg(base: &EnvGenCfg, max_steps: usize) -> EnvGenCfg {
+    let mut c = base.clone();
+    c.big_vols = true;
+    c.max_steps = max_steps;
+    c.max_batch = 3;
+    c.large_batch_pct = 0;
+    c.w_new = 80;
+    c.market_pct = 25;
+    // no modifications: a re-priced resting order of 2^31 could trade in the same step as the new order and
+    // push the step's traded volume past 2^32 (outside the domain)
+    c.w_modify = 0;
+    c
+}
+
 fn env_part(name: &str, cfg: EnvGenCfg, cases: u64) -> Part<Case> {
     Part { name: name.to_string(), kind: PartKind::Random { make: Box::new(move || env_case_strategy(cfg.clone()).prop_map(Case::Env).boxed()), cases } }
 }
@@ -150,7 +166,7 @@ fn exhaustive_env_part(name: &str, k: usize, seeds: u64, toggle_off: bool) -> Pa
                     instrs.push(small_instr(code, a));
                 }
                 let steps = vec![StepSpec { toggle: None, instrs: seed_step }, StepSpec { toggle: if toggle_off { Some(false) } else { None }, instrs }, StepSpec { toggle: if toggle_off { Some(true) } else { None }, instrs: vec![] }];
-                Some(Case::Env(EnvCase { kind_assets: if market { 2 } else { 0 }, levels: 3, ticks: vec![2, 2], t0: 0, step_size: 16, trading: true, seed: seed.wrapping_mul(0x9E37_79B9_7F4A_7C15) ^ crate::engine::verif_seed(), steps, drain: true }))
+                Some(Case::Env(EnvCase { kind_assets: if market { 2 } else { 0 }, levels: 3, ticks: vec![2, 2], t0: 0, step_size: 16, trading: true, seed: seed.wrapping_mul(0x9E37_79B9_7F4A_7C15) ^ crate::engine::verif_seed(), steps, drain: true, exact_vols: false }))
             }),
             description: format!("after a fixed seeding step (2 bids, 2 asks resting per asset), every batch of exactly {} instructions over a 12-instruction alphabet (4 limit orders incl. crossing ones, 2 market orders, 3 cancels incl. one of an order of the same batch, 3 modifies: crossing re-price, pure reduction, re-price with volume) x {} seeds x {{Env<3>, MarketEnv<2,3>}}{}, then an empty step and two draining steps", k, seeds, if toggle_off { ", batch processed while trading is disabled" } else { "" }),
         },
@@ -174,7 +190,7 @@ pub fn parts(id: &'static str, tier: Tier) -> Option<(Vec<Part<Case>>, String)> 
             long.max_batch = 4;
             long.large_batch_pct = 0;
             Some((
-                vec![env_part("env-random-long-runs", long, tier.pick(2_500, 60_000)), exhaustive_env_part("exhaustive-batches-of-2", 2, tier.pick(24, 64), false), exhaustive_env_part("exhaustive-batches-of-3", 3, tier.pick(4, 24), false), env_part("env-random-single", single, tier.pick(20_000, 600_000)), env_part("env-random-multi", multi, tier.pick(12_000, 300_000)), env_part("env-random-toggles", tog, tier.pick(8_000, 200_000))],
+                vec![env_part("env-random-large-volumes", big_vol_cfg(&c, 16), tier.pick(6_000, 150_000)), env_part("env-random-long-runs", long, tier.pick(2_500, 60_000)), exhaustive_env_part("exhaustive-batches-of-2", 2, tier.pick(24, 64), false), exhaustive_env_part("exhaustive-batches-of-3", 3, tier.pick(4, 24), false), env_part("env-random-single", single, tier.pick(20_000, 600_000)), env_part("env-random-multi", multi, tier.pick(12_000, 300_000)), env_part("env-random-toggles", tog, tier.pick(8_000, 200_000))],
                 format!("{}Oracle: after every step the set of processing orders consistent with everything observed so far (new orders pinned to position arrival-start, all arrangements of the other instructions) is replayed on REAL plain OrderBooks and must be non-empty, i.e. some permutation of the batch explains the environment's orders, trades and views exactly; plus clock = start+step size, per-step traded volume = that step's trades, empty steps change nothing. Non-trivial: at least one batch whose outcome depends on the processing order (measured by replaying the reversed order on the plain book).", common),
             ))
         }
@@ -196,7 +212,7 @@ pub fn parts(id: &'static str, tier: Tier) -> Option<(Vec<Part<Case>>, String)> 
             long.max_steps = 80;
             long.max_batch = 5;
             Some((
-                vec![env_part("env-random-long-runs", long, tier.pick(4_000, 100_000)), exhaustive_env_part("exhaustive-batches-of-3", 3, tier.pick(4, 24), false), env_part("env-random-submissions", c, tier.pick(150_000, 2_000_000))],
+                vec![env_part("env-random-large-volumes", big_vol_cfg(&c, 24), tier.pick(15_000, 300_000)), env_part("env-random-long-runs", long, tier.pick(4_000, 100_000)), exhaustive_env_part("exhaustive-batches-of-3", 3, tier.pick(4, 24), false), env_part("env-random-submissions", c, tier.pick(150_000, 2_000_000))],
                 format!("{}Oracle: the complete observable state of the environment (live book snapshot per asset, every recorded series, cached level-2) is compared before and after EVERY submission and must be identical except for exactly one appended order record with status New; the cached level-2 must equal the live book's level-2 after construction, after every submission and after every step. Non-trivial: a submission that would trade or move the touch if applied directly, against a non-empty book.", common),
             ))
         }
@@ -212,7 +228,7 @@ pub fn parts(id: &'static str, tier: Tier) -> Option<(Vec<Part<Case>>, String)> 
             longer.max_batch = 3;
             longer.drain = true;
             Some((
- vec![env_part("env-random-very-long-runs", longer, tier.pick(600, 12_000)), env_part("env-random-long-runs", long, tier.pick(5_000, 120_000)), exhaustive_env_part("exhaustive-batches-of-3", 3, tier.pick(4, 24), false), env_part("env-random-records", c, tier.pick(200_000, 3_000_000))],
+ vec![env_part("env-random-large-volumes", big_vol_cfg(&c, 24), tier.pick(15_000, 300_000)), env_part("env-random-very-long-runs", longer, tier.pick(600, 12_000)), env_part("env-random-long-runs", long, tier.pick(5_000, 120_000)), exhaustive_env_part("exhaustive-batches-of-3", 3, tier.pick(4, 24), false), env_part("env-random-records", c, tier.pick(200_000, 3_000_000))],
                 format!("{}Oracle: after step k every recorded series (touch prices, side volumes, touch volumes and counts, per-level volumes and counts for each of the L levels, per-step traded volume) has exactly k entries, entry k-1 equals the value read from the live book after the step (bid series vs bid getters), earlier entries are unchanged, and traded volume k-1 equals both the volume logged during the step and the volume of trades time-stamped within it. Non-trivial: a step whose book differs between bid and ask in total volume, touch volume and touch count and has an occupied level >= 1 on both sides.", common),
             ))
         }
